@@ -443,7 +443,7 @@ static void meaning_case(const Args& a, long i, Agg& agg) {
                 if (!same_bits(o->cm_rep, fld(D.num, "contact_cutoff_repulsion").dval)) m.fail("contact_model_cutoff", "repulsion cut-off used by the contact model " + Cmp::dstr(o->cm_rep) + " is not the value of <contact_cutoff_repulsion> " + fld(D.num, "contact_cutoff_repulsion").text);
                 // behaviour: pushed back at 0.5 and 0.9 repulsion cut-offs (also when that is beyond the adhesion cut-off), left alone at 1.2 x the larger cut-off
                 if (o->ok && su.kct < o->rd.ct.size()) { const double adh = fld(D.num, "contact_cutoff_adhesion").dval, rep = fld(D.num, "contact_cutoff_repulsion").dval;
-                    try { for (double fr : {0.5, 0.9, 1.2}) { const double fm = contact_probe_force(o->rd.sp, *o->rd.ct[su.kct], fr < 1 ? fr * rep : fr * std::max(adh, rep));   // (the models apply the repulsion rule up to the larger of the two cut-offs) agg.bin("contact_cutoff_probes"); if (fr < 1 && fr * rep > adh) agg.bin("contact_cutoff_probes_between_the_two_cutoffs");
+                    try { for (double fr : {0.5, 0.9, 1.2}) { const double fm = contact_probe_force(o->rd.sp, *o->rd.ct[su.kct], fr < 1 ? fr * rep : fr * std::max(adh, rep)); /* the models apply the repulsion rule up to the larger of the two cut-offs */ agg.bin("contact_cutoff_probes"); if (fr < 1 && fr * rep > adh) agg.bin("contact_cutoff_probes_between_the_two_cutoffs");
                             if (fr < 1 && !(fm > 0)) m.fail("repulsion_range", "a node " + Cmp::dstr(fr) + " repulsion cut-offs inside another cell receives no contact force (adhesion cut-off " + Cmp::dstr(adh) + ", repulsion cut-off " + Cmp::dstr(rep) + ")");
                             if (fr > 1 && fm != 0) m.fail("repulsion_range", "a node 1.2 x the larger cut-off inside another cell still receives a contact force"); } }
                     catch (const std::exception& e) { m.fail("repulsion_range", std::string("contact probe threw: ") + e.what()); } } }
